@@ -93,6 +93,10 @@ func init() {
 	// a write to the SHARED database of this scenario — used to put rows into states that no protocol command
 	// produces (a disabled account, a password that was never initialised, a disabled domain / role mailbox)
 	register("sql_exec", func(w *World, op Op) Obs {
+		if op.str("store") != "" {
+			// the same op name is used by C06/C08 for a write to ONE store file: {"store": "user_db_1", "q": ...}
+			return opSQLExec(w, op)
+		}
 		args := []interface{}{}
 		for _, a := range op.strs("args") {
 			args = append(args, a)
